@@ -672,3 +672,132 @@ eject_branches = Bounded(PROP, 'eject.branches[both pooling methods, every eject
                          'buffers of 1-5 molecules (pooling 0); two hash groups of 0-3 and 1-3 molecules (pooling 1); all patterns',
                          'exhaustive run of the real statements against the specification')
 UNITS.append(eject_branches)
+
+
+# ------------------------------------------------------------------------------ the bucket key of a plain fragment
+# pooling_method=1 compares a fragment only with the molecules filed under its match_hash; the partition equals the one of
+# pooling_method=0 only if two fragments that compare equal (Fragment.__eq__, contract in C06: same cell, strand and contig,
+# start or end within the radius, same UMI) never get different keys.  Relational clause over the real statements that end
+# Fragment.__init__: the key the statements build for fragment A, and the same term with A's sample / strand / UMI / span
+# renamed to those of a second fragment B that runs down the same path, must agree whenever A == B.  (Pairs on different
+# paths are not compared: stated below.)
+_KEYVARS = ('sample', 'strand', 'umi', 'contig', 'start', 'end')
+
+
+def _key_tail(f):
+    import ast
+    for i, st in enumerate(f.body):
+        if isinstance(st, ast.Expr) and ast.unparse(st).startswith('self.set_sample('):
+            return f.body[i:]
+    return []
+
+
+def _key_vars(who):
+    return {'sample': named(STR, who + '.sample'), 'strand': named(BOOL, who + '.strand'), 'umi': named(STR, who + '.umi'),
+            'contig': named(STR, who + '.contig'), 'start': named(INT, who + '.start'), 'end': named(INT, who + '.end')}
+
+
+def _key_self(eng, name):
+    r = named(INT, 'assignment_radius')
+    eng.assume(r.z >= 0)
+    return Obj('Fragment', {'match_hash': None, 'assignment_radius': r, 'qcfail': named(BOOL, 'qcfail'), 'max_fragment_size': None,
+                            'umi_hamming_distance': 0, 'span': None, 'strand': None, 'sample': None, 'umi': None},
+               info=eng.loader.classref(FFR, 'Fragment'))
+
+
+def _key_setup(eng):
+    from pyvc.engine import Builtin
+    A, B = _key_vars('a'), _key_vars('b')
+    for who, v in (('a', A), ('b', B)):
+        eng.assume(z3.And(v['start'].z >= 0, v['start'].z < v['end'].z))      # an aligned read covers at least one base
+        for x in _KEYVARS:
+            eng.spec_env['%s_%s' % (who, x)] = v[x]      # reported with the counter-model
+    q = 'singlecellmultiomics.fragment.fragment.Fragment.'
+
+    def setter(attr, val):
+        def h(e, f, a, k, n):
+            (f.bound if getattr(f, 'bound', None) is not None else a[0]).attrs[attr] = val
+        return h
+    eng.loader.call_hooks[q + 'set_sample'] = setter('sample', A['sample'])
+    eng.loader.call_hooks[q + 'update_umi'] = setter('umi', A['umi'])
+    eng.loader.call_hooks[q + 'identify_strand'] = lambda e, f, a, k, n: A['strand']
+    eng.loader.call_hooks[q + 'update_span'] = setter('span', (A['contig'], A['start'], A['end']))
+
+    def flat(v):
+        if isinstance(v, tuple):
+            return [x for y in v for x in flat(y)]
+        return [v]
+
+    def same_key(e, a, k, n):
+        mh = a[0].attrs['match_hash']
+        sub = [(A[x].z, B[x].z) for x in _KEYVARS]
+        radius = a[0].attrs['assignment_radius'].z
+        dist = lambda p, q_: z3.If(p - q_ >= 0, p - q_, q_ - p)      # noqa: E731
+        ds, de = dist(A['start'].z, B['start'].z), dist(A['end'].z, B['end'].z)
+        equal = z3.And(A['sample'].z == B['sample'].z, A['strand'].z == B['strand'].z, A['contig'].z == B['contig'].z,
+                       z3.If(ds <= de, ds, de) <= radius, A['umi'].z == B['umi'].z)
+        same_path = z3.And(*[z3.substitute(c, *sub) for c in e.pc]) if e.pc else z3.BoolVal(True)
+        agree = []
+        for x in flat(mh):
+            if isinstance(x, Sym):
+                agree.append(x.z == z3.substitute(x.z, *sub))
+        return Sym(z3.Implies(z3.And(equal, same_path), z3.And(*agree) if agree else z3.BoolVal(True)), BOOL)
+    eng.spec_env['SAME_KEY'] = Builtin('SAME_KEY', same_key)
+
+
+plain_key = Contract(
+    PROP, FFR + '::Fragment.__init__', name='Fragment.__init__[bucket key of plain fragments]',
+    block=_key_tail,
+    params={'self': _key_self, 'library_name': 'str'},
+    setup=_key_setup,
+    ensures={'fragments_that_compare_equal_share_their_bucket_key': 'SAME_KEY(self)'},
+    raises={},
+    assumptions=['set_sample / update_umi / identify_strand / update_span set arbitrary values (span with 0 <= start < end); '
+                 'the second fragment takes the same path through the statements (pairs on different paths are not compared); '
+                 'exact UMIs (umi_hamming_distance 0), Fragment.__eq__ by its C06 contract'],
+)
+
+
+def plain_key_replay(inputs, clause):
+    """two real one-read fragments with the model's cell, strand, UMI and coordinates: do they compare equal and carry
+    different bucket keys?"""
+    import pysam
+    from pyvc.contract import import_real
+    Fragment = import_real(FFR, 'Fragment')
+    g = inputs.get('ghost') or {}
+
+    def val(who, k, d):
+        for src in (inputs, g):
+            for nm in (who + '.' + k, who + '_' + k):
+                if src.get(nm) is not None:
+                    return src[nm]
+        return d
+    hdr = pysam.AlignmentHeader.from_dict({'HD': {'VN': '1.0'}, 'SQ': [{'SN': 'chr1', 'LN': 10 ** 9}]})
+    radius = inputs.get('assignment_radius', g.get('assignment_radius', 0)) or 0
+    frs = []
+    for who in ('a', 'b'):
+        s, e_ = int(val(who, 'start', 100)), int(val(who, 'end', 150))
+        if e_ <= s:
+            e_ = s + 1
+        if e_ - s > 5000:
+            return {'status': 'no-input', 'observed': {'outcome': 'return', 'value': 'span too long for a real read'}}
+        r = pysam.AlignedSegment(hdr)
+        r.query_name = 'r_' + who
+        r.reference_id, r.reference_start = 0, s
+        r.query_sequence = 'A' * (e_ - s)
+        r.cigarstring = '%dM' % (e_ - s)
+        r.mapping_quality = 60
+        r.is_reverse = bool(val(who, 'strand', False))
+        r.set_tag('SM', str(val('a', 'sample', 'cell')) or 'cell')
+        r.set_tag('RX', str(val('a', 'umi', 'ACG')) or 'ACG')
+        frs.append(Fragment([r], umi_hamming_distance=0, assignment_radius=int(radius)))
+    a, b = frs
+    obs = {'outcome': 'return', 'value': {'a.span': list(a.span), 'b.span': list(b.span), 'equal': bool(a == b),
+                                         'a.match_hash': repr(a.match_hash), 'b.match_hash': repr(b.match_hash)}}
+    if (a == b) and a.match_hash != b.match_hash:
+        return {'status': 'confirmed', 'observed': obs, 'failed': [{'clause': clause}]}
+    return {'status': 'not-reproduced', 'observed': obs}
+
+
+plain_key.replay = plain_key_replay
+UNITS.append(plain_key)
